@@ -3,7 +3,7 @@ NEXT XNext
 CONSTANTS
   Alphabet <- QsAlphabet
   MaxLen = 3
-  Extra <- QsExtra
+  Extra <- QsExtraAll
   Mappings <- NoMappings
   KnownLiterals <- NoStrings
 INVARIANT ParseTotal
